@@ -85,7 +85,7 @@ impl Decider for Sched {
                 Some(c) => {
                     // Switch right after an existence check, a truncation, a lock release or
                     // between the files of a multi-file write; otherwise mostly keep going.
-                    let hot = matches!(self.last_kind.as_str(), "std.exists" | "std.mkdir" | "unlock" | "lock.got" | "blob.exists")
+                    let hot = matches!(self.last_kind.as_str(), "std.exists" | "std.mkdir" | "unlock" | "lock.got" | "blob.exists" | "dep.enter" | "dep.cloned" | "dep.fetched" | "resolve.cloned")
                         || self.last_kind.ends_with(".open")
                         || self.last_kind.ends_with(".data");
                     let p_switch = if hot { 3 } else { 1 };
@@ -183,6 +183,21 @@ pub fn path_of(w: &World, p: &Project) -> std::path::PathBuf {
 
 pub fn run(sc: &C30Scenario, cmds_run: &mut u64) -> Result<Outcome, String> {
     let key = simcore::fsutil::hash_u64(format!("{:?}{:?}{:?}{:?}", sc.kind, sc.projects, sc.prep, sc.cmds).as_bytes()) ^ 0x30;
+    struct RepoGuard(Option<std::path::PathBuf>);
+    impl Drop for RepoGuard {
+        fn drop(&mut self) {
+            if let Some(p) = &self.0 {
+                let _ = std::fs::remove_dir_all(p);
+            }
+        }
+    }
+    let mut _repo = RepoGuard(None);
+    if sc.kind == "shared-git-dependency" {
+        let dir = dep_repo_dir(sc);
+        let d2 = dir.clone();
+        std::thread::spawn(move || create_dep_repo(&d2)).join().map_err(|_| "repo thread panicked".to_string())??;
+        _repo = RepoGuard(Some(dir));
+    }
     let mut w = World::at(&sc.projects[0], key);
     for p in sc.projects.iter().skip(1) {
         w.add_project(p);
@@ -347,8 +362,71 @@ pub fn run(sc: &C30Scenario, cmds_run: &mut u64) -> Result<Outcome, String> {
 
 const CMDS: &[&[&str]] = &[&["build"], &["build"], &["check"], &["test", "--seed", "7", "--format", "json", "--backend", "cranelift"]];
 
+/// Creates the dependency repository of a "shared-git-dependency" scenario with veryl's
+/// own Git/publish API: release 0.1.0 is published, then HEAD moves on (unpublished), so a
+/// checkout left at HEAD differs visibly from the pinned release. Outside any git work tree.
+pub fn create_dep_repo(dir: &std::path::Path) -> Result<(), String> {
+    use veryl_metadata::{Git, Metadata};
+    let _ = std::fs::remove_dir_all(dir);
+    std::fs::create_dir_all(dir.join("src")).map_err(|e| e.to_string())?;
+    if std::process::Command::new("git").arg("-C").arg(dir).arg("rev-parse").arg("--show-toplevel").output().map(|o| o.status.success()).unwrap_or(false) {
+        return Err(format!("{} lies inside a git work tree", dir.display()));
+    }
+    let toml = dir.join("Veryl.toml");
+    simcore::fsutil::write_file(&toml, b"[project]\nname = \"gdep\"\nversion = \"0.1.0\"\n\n[build]\nclock_type = \"posedge\"\nreset_type = \"async_low\"\nsources = [\"src\"]\ntarget = {type = \"directory\", path = \"target\"}\nexclude_std = true\n\n[publish]\nbump_commit = true\npublish_commit = true\n");
+    let ign = dir.join(".gitignore");
+    simcore::fsutil::write_file(&ign, b"Veryl.lock\n");
+    let m = dir.join("src/gdep_mod.veryl");
+    simcore::fsutil::write_file(&m, b"pub module GdepMod (\n    o: output logic<4>,\n) {\n    assign o = 1;\n}\n");
+    let git = Git::init(dir).map_err(|e| e.to_string())?;
+    for f in [&toml, &ign, &m] {
+        git.add(f).map_err(|e| e.to_string())?;
+    }
+    git.commit("release").map_err(|e| e.to_string())?;
+    let mut md = Metadata::load(&toml).map_err(|e| e.to_string())?;
+    md.publish().map_err(|e| e.to_string())?;
+    // HEAD moves past the release
+    simcore::fsutil::write_file(&m, b"pub module GdepMod (\n    o: output logic<4>,\n) {\n    assign o = 2;\n}\n");
+    let x = dir.join("src/gdep_extra.veryl");
+    simcore::fsutil::write_file(&x, b"pub module GdepExtra (\n    o: output logic,\n) {\n    assign o = 0;\n}\n");
+    git.add(&m).map_err(|e| e.to_string())?;
+    git.add(&x).map_err(|e| e.to_string())?;
+    git.commit("work after the release").map_err(|e| e.to_string())?;
+    Ok(())
+}
+
+pub fn dep_repo_dir(sc: &C30Scenario) -> std::path::PathBuf {
+    let key = simcore::fsutil::hash_u64(format!("{:?}{:?}", sc.kind, sc.projects).as_bytes());
+    std::path::PathBuf::from(std::env::var("VERIF_DEPSIM_SCRATCH").unwrap_or_else(|_| "/tmp/verif-depsim-scratch".to_string())).join(format!("c30-{key:016x}"))
+}
+
 pub fn gen_scenario(seed: u64) -> C30Scenario {
     let mut rng = Rng::new(seed);
+    if rng.chance(1, 6) {
+        // two projects, cold shared user cache, one git dependency pinned to a release behind HEAD
+        let mut ps = vec![];
+        for name in ["prj", "prk"] {
+            let mut g = wgen::gen_project(&mut rng, true, false);
+            g.project.files.retain(|k, _| !k.starts_with("../"));
+            g.project.toml.deps.clear();
+            g.project.files.retain(|k, _| k != "src/use_dep.veryl");
+            g.project.name = name.to_string();
+            g.project.toml.target = "directory".into();
+            if g.project.files.is_empty() {
+                g.project.files.insert("src/only.veryl".into(), "module Only (\n    o: output logic,\n) {\n    assign o = 0;\n}\n".into());
+            }
+            ps.push(g.project);
+        }
+        let mut sc = C30Scenario { kind: "shared-git-dependency".into(), projects: ps, prep: vec![], cmds: vec![(0, s(&["build"])), (1, s(&["build"]))], schedule: vec![], sched_seed: rng.next_u64() % 1_000_000, ls_actors: vec![] };
+        if rng.chance(1, 3) {
+            sc.cmds.push((0, s(&["check"])));
+        }
+        let url = format!("file://{}", dep_repo_dir(&sc).to_string_lossy());
+        for p in sc.projects.iter_mut() {
+            p.toml.git_deps = vec![("gdep".to_string(), url.clone(), "0.1.0".to_string())];
+        }
+        return sc;
+    }
     if rng.chance(1, 4) {
         // one or two builds/checks alongside one or two language servers on the same project
         let g = wgen::gen_project(&mut rng, true, false);
@@ -504,7 +582,7 @@ pub fn check(tier: &str) -> i32 {
             }
         }
     }
-    for p in ["scenario.same-project", "scenario.shared-user-cache", "scenario.build-with-language-server", "scenario.with_lock_contention", "schedule.switches", "gates.language_server_try_lock"] {
+    for p in ["scenario.same-project", "scenario.shared-user-cache", "scenario.shared-git-dependency", "scenario.build-with-language-server", "scenario.with_lock_contention", "schedule.switches", "gates.language_server_try_lock"] {
         if probes.get(p) == 0 {
             rep.harness_error(&format!("reach probe {p} stayed at zero"));
         }
@@ -516,7 +594,7 @@ pub fn check(tier: &str) -> i32 {
     extra.insert("distinct_interleavings".into(), json!(interleavings.len()));
     extra.insert("interleaving_measure".into(), json!("hash of the (actor, gate kind) release sequence of the concurrent phase"));
     extra.insert("runs_per_hour".into(), json!((n as f64 / wall * 3600.0) as u64));
-    extra.insert("components".into(), json!({"real": ["2-3 concurrent veryl CLI processes (build/check/test)", "kernel flock (via try_lock + report + retry at the lock gates)", "filesystem", "std expansion into the shared user cache"], "simulated": ["process scheduling: one runnable actor at a time, chosen by the schedule", "clock", "RandomState keys"], "stub_boundary": ["git checkouts (resolve/, dependencies/<uuid>) are written by gitoxide internals without gates: only path-free projects are used", "the language-server actor runs one lifetime (open files, quiesce, probe); longer editor scripts are lssim's (C07)"]}));
+    extra.insert("components".into(), json!({"real": ["2-3 concurrent veryl CLI processes (build/check/test)", "kernel flock (via try_lock + report + retry at the lock gates)", "filesystem", "std expansion into the shared user cache"], "simulated": ["process scheduling: one runnable actor at a time, chosen by the schedule", "clock", "RandomState keys"], "stub_boundary": ["inside one gitoxide clone/fetch/checkout call nothing is gated: the gates sit between those calls", "the language-server actor runs one lifetime (open files, quiesce, probe); longer editor scripts are lssim's (C07)"]}));
     Evidence {
         property_id: "C30".into(),
         tier: tier.into(),
@@ -524,7 +602,7 @@ pub fn check(tier: &str) -> i32 {
         level: "exploration".into(),
         evaluations: n as u64,
         distinct_nontrivial: distinct.len() as u64,
-        rule: "seeded scenarios: (a) 2-3 of build/check/test on the same project after an optional build+edits, (b) 2-3 builds of two projects sharing a cold user cache with the standard library enabled, (c) 1-2 build/check processes next to 1-2 language-server processes (real Server on the shim queue, gates owned by the same coordinator) on one project; a seeded scheduler (biased to switch after existence checks, truncations, lock hand-overs and between files of a multi-file write; 1 in 8 run-to-completion) picks the next process at every gate. distinct_nontrivial = distinct interleavings (hash of the actor/gate sequence) with at least two context switches".into(),
+        rule: "seeded scenarios: (a) 2-3 of build/check/test on the same project after an optional build+edits, (b) 2-3 builds of two projects sharing a cold user cache with the standard library enabled, (c) two projects sharing a cold user cache and a git dependency (local file:// repository created with veryl's own Git/publish API, pinned to a release behind HEAD; gates between clone, fetch and checkout), (d) 1-2 build/check processes next to 1-2 language-server processes (real Server on the shim queue, gates owned by the same coordinator) on one project; a seeded scheduler (biased to switch after existence checks, truncations, lock hand-overs and between files of a multi-file write; 1 in 8 run-to-completion) picks the next process at every gate. distinct_nontrivial = distinct interleavings (hash of the actor/gate sequence) with at least two context switches".into(),
         samples,
         extra,
         assumptions: vec![
